@@ -27,6 +27,15 @@ func VerifDir() string {
 	return "/verif"
 }
 
+// OutDir is where evidence/ and replays/ are written (VERIF_OUT overrides it
+// so that sensitivity runs against scratch trees do not clobber real results).
+func OutDir() string {
+	if d := os.Getenv("VERIF_OUT"); d != "" {
+		return d
+	}
+	return VerifDir()
+}
+
 // RepoDir is the google/wire tree under test.
 func RepoDir() string {
 	if d := os.Getenv("VERIF_REPO"); d != "" {
